@@ -8,7 +8,7 @@ use crate::visit::veq;
 use serde_json::json;
 use tls_parser::*;
 
-pub const RULE: &str = "concatenations of 0..600 reference-encoded valid TLS (resp. DTLS) records followed by nothing / a strict prefix of a record / an oversized header / an unknown content type / garbage / a record with malformed content, and byte-mutated variants; oracle = explicit loop over the single-record parser on the real crate (differential). tls_parser vs parse_tls_plaintext compared (value, remainder address, error kind, error position) on the same inputs. volume buffers of 1 MiB..64 MiB (thorough: up to 1 GiB, lazily mapped) made only of consecutive valid records (TLS application data; DTLS one handshake fragment per record) (maximum-size or mixed sizes) crossing 2^20..2^30 and 10 MiB, with each kind of tail; distinct_nontrivial = distinct (family, #records, tail kind, loop outcome, many outcome) tuples";
+pub const RULE: &str = "concatenations of 0..600 reference-encoded valid TLS (resp. DTLS) records followed by nothing / a strict prefix of a record / an oversized header / an unknown content type / garbage / a record with malformed content, and byte-mutated variants; oracle = explicit loop over the single-record parser on the real crate (differential). tls_parser vs parse_tls_plaintext compared (value, remainder address, error kind, error position) on the same inputs. volume buffers of 1 MiB..64 MiB (thorough: up to 1 GiB, lazily mapped) made only of consecutive valid records (TLS application data; DTLS one handshake fragment per record) (all 2^14 or all 2^14+256 bytes, or mixed sizes including 2^14+1 and 2^14+255) crossing 2^20..2^30 and 10 MiB, with each kind of tail; distinct_nontrivial = distinct (family, #records, tail kind, loop outcome, many outcome) tuples";
 pub const ASSUMPTIONS: &[&str] = &["the single-record parsers are the reference (they are judged by C02/C03/C10)"];
 
 #[derive(Clone, Copy, Debug, Hash, PartialEq, Eq)]
@@ -307,7 +307,7 @@ pub fn run(ctx: &mut Ctx) {
         while off < vol {
             // TLS: application-data records (zero-copy); DTLS (no application data support): one handshake
             // fragment per record (12-byte handshake header, then an opaque fragment)
-            let pl = if full { 16384 } else if dtls { *r.pick(&[16384usize, 16384, 16384, 13, 12, 4096, 16383]) } else { *r.pick(&[16384usize, 16384, 16384, 1, 0, 4096, 16383]) };
+            let pl = if full { if idx % 8 < 4 { 16384 } else { 16640 } } else if dtls { *r.pick(&[16384usize, 16384, 16640, 16385, 16639, 13, 12, 4096, 16383]) } else { *r.pick(&[16384usize, 16384, 16640, 16385, 16639, 1, 0, 4096, 16383]) };
             buf[off] = if dtls { 0x16 } else { 0x17 };
             buf[off + 1] = if dtls { 0xfe } else { 3 };
             buf[off + 2] = if dtls { 0xfd } else { 3 };
